@@ -2,9 +2,14 @@
 
 spec -> code : TextCodecMC.tla enumerates every table of several bounded families
                (adjacency-exhaustive layouts, every numeric type with its extremes,
-               sub-arrays, string widths 1..12); every exported table is written and
-               read back with esutil.sfile and esutil.recfile for every delimiter of
-               {',', ':', tab, space, ';', '|'} and both byte orders (plus mixed).
+               sub-arrays, string widths 1..12, the text shapes of floats) and chooses
+               for each table the delimiters it is written with: the delimiter is a
+               dimension of the model (TextCodec.tla classifies every single-character
+               delimiter: tab, VT, FF, space and the 95 printable ASCII characters, of
+               which the 22 that occur in or continue the text of a number are
+               inherently ambiguous and outside the quantifier; 76 remain).  Every
+               exported (table, delimiter) pair is written and read back with
+               esutil.sfile and esutil.recfile in both byte orders (plus mixed).
 code -> spec : what came back - and larger seeded tables - is abstracted by the same
                byte -> token map as what was written and judged by TextCodecTrace.tla
                (property level of TextCodec.tla).
@@ -32,20 +37,32 @@ from ..tlc import cfg
 
 NEEDS_EXT = True
 
-DELIMS = [",", ":", "\t", " ", ";", "|"]
-DCLASS = {",": "plain", ":": "plain", ";": "plain", "|": "plain", "\t": "tab", " ": "space"}
-DNAME = {",": "comma", ":": "colon", ";": "semicolon", "|": "bar", "\t": "tab", " ": "space"}
+LISTED = [",", ":", "\t", " ", ";", "|"]          # the catalogue of the quantifier text
+_DNAMES = {",": "comma", ":": "colon", ";": "semicolon", "|": "bar", "\t": "tab", " ": "space", "\v": "vtab", "\f": "formfeed",
+           "%": "percent", "\\": "backslash", "'": "quote", '"': "dquote", "#": "hash"}
+# the delimiter catalogue (code -> class, group, inside the quantifier) is defined in TextCodec.tla and printed by
+# TLC with the export; python never classifies a delimiter itself
+CATALOG = {}
+
+
+def dname(delim):
+    return _DNAMES.get(delim) or ("chr%d(%s)" % (ord(delim), delim))
+
+
 NUMTYPES = {"i1", "u1", "i2", "u2", "i4", "u4", "i8", "u8", "f4", "f8"}
 MECH_INVS = ["MechRefinesModHazards", "HazardsHit", "StepsAgree", "ScanSafe", "RefAccepted"]
+DELIM_INVS = ["CatalogueOK", "DelimIndependent"]
 ROWS_CLAUSES = ("rows_error", "rows_count", "rows_int", "rows_str", "rows_float")
 
 
 # the bounded families are defined in TextCodecMC.tla (FamDefs); TLC prints their definitions
 FAMILIES = {
-    "quick": ["q_adj2", "q_adj3", "q_arr", "q_types", "q_types22", "q_numpair", "q_widths", "q_nul"],
-    "thorough": ["t_adj2", "t_adj2x", "t_adj3", "t_rows3", "t_arr", "t_types", "t_types22", "t_numpair", "t_widths", "t_widths3", "t_nul"],
+    "quick": ["q_adj2", "q_adj3", "q_arr", "q_types", "q_types22", "q_numpair", "q_widths", "q_nul", "q_delim", "q_dtype", "q_fshape"],
+    "thorough": ["t_adj2", "t_adj2x", "t_adj3", "t_rows3", "t_arr", "t_types", "t_types22", "t_numpair", "t_widths", "t_widths3", "t_nul",
+                 "t_delim", "t_dtype", "t_fshape"],
 }
-RANDOM_TABLES = {"quick": 1200, "thorough": 40000}
+RANDOM_TABLES = {"quick": 1200, "thorough": 28000}
+DELIM_FAMILIES = {"quick": ["q_delim", "q_dtype"], "thorough": ["t_delim", "t_dtype"]}   # carry the delimiter dimension
 
 # ---------------------------------------------------------------------------------
 # lattices (DESIGN 4.1): short decimals on which "%.16g"/"%.7g" -> strtod is the identity
@@ -103,6 +120,56 @@ def generic_f4(rng):
             return x
 
 
+def _on_lattice(x, w):
+    """the print/scan cycle ("%.16g" / "%.7g", correctly rounded both ways) is the identity on x"""
+    if w == 8:
+        return float("%.16g" % x) == x
+    return float(nearest_f32(Fraction("%.7g" % x))) == x
+
+
+def shape_value(tok, w, rng):
+    """a finite float of the text shape `tok` (TCFltShapes of TextCodec.tla) for the item size w: a value of the
+    type, verified to survive the print/scan cycle unchanged, whose printed text has the shape"""
+    nd, emax, ebig = (16, 300, 100) if w == 8 else (7, 37, 10)
+    for _ in range(10000):
+        m = rng.randrange(10 ** (nd - 1), 10 ** nd)
+        if m % 10 == 0:
+            m += rng.randrange(1, 10)                                  # the last digit is needed
+        if tok == "fs":
+            x = float(rng.randrange(1, 10))
+        elif tok == "fl":                                              # -d.ddde-ddd : the longest text
+            e = rng.randrange(ebig, emax + 1) * rng.choice([1, -1])
+            x = -float(Fraction(m) * Fraction(10) ** (e - (nd - 1)))
+        elif tok == "fz":                                              # -0.000ddd : the longest fixed notation
+            x = -float(Fraction(m) / Fraction(10) ** (nd + 3))
+        elif tok == "fi":                                              # ddd : integral, every digit
+            m = rng.randrange(10 ** (nd - 1), (1 << 53) if w == 8 else 10 ** nd)
+            x = float(m + (1 if m % 10 == 0 else 0))
+        elif tok == "fd":                                              # subnormal
+            if w == 8:
+                x = rng.choice([1, -1]) * rng.randrange(1, 1 << rng.randrange(1, 52)) * 2.0 ** -1074
+            else:
+                x = rng.choice([1, -1]) * float(_F32(rng.randrange(1, 1 << rng.randrange(1, 23)) * 2.0 ** -149))
+        elif tok == "fx":                                              # the largest magnitudes on the lattice
+            x = rng.choice([1, -1]) * (1.79769313486231e+308 if w == 8 else float(_F32(3.40282e+38)))
+        else:
+            raise MachineryError("unknown float shape %r" % tok)
+        if w == 4:
+            x = float(_F32(x))
+        if x == 0 or not np.isfinite(x) or not _on_lattice(x, w):
+            continue
+        text = ("%.16g" if w == 8 else "%.7g") % x
+        want = {"fs": len(text) == 1,
+                "fl": len(text) == (23 if w == 8 else 13),
+                "fz": text.startswith("-0.000") and len(text) == nd + 6,
+                "fi": text.isdigit() and len(text) == nd,
+                "fd": abs(x) < (2.2250738585072014e-308 if w == 8 else 1.17549435e-38),
+                "fx": True}[tok]
+        if want:
+            return x
+    raise MachineryError("no lattice value of shape %s for f%d" % (tok, w))
+
+
 def int_range(k, w):
     return (-(1 << (8 * w - 1)), (1 << (8 * w - 1)) - 1) if k == "i" else (0, (1 << (8 * w)) - 1)
 
@@ -123,6 +190,7 @@ def ftoken(v):
     return v.hex()
 
 
+FSHAPES = ("fs", "fl", "fz", "fi", "fd", "fx")
 _SPECIAL = {"nan": float("nan"), "pinf": float("inf"), "ninf": float("-inf"), "pz": 0.0, "nz": -0.0}
 
 
@@ -361,24 +429,13 @@ def plan(idx, ct, tier):
     return out
 
 
-_PLAIN_DELIMS = [",", ":", ";", "|"]
-
-
-def delims_for(idx, tier):
-    """thorough: all six; quick: tab, space and two of the four plain delimiters in rotation
-    (the plain delimiters differ in nothing but the character)"""
-    if tier == "thorough":
-        return list(DELIMS)
-    return ["\t", " ", _PLAIN_DELIMS[idx % 4], _PLAIN_DELIMS[(idx + 1 + (idx // 4) % 3) % 4]]
-
-
 def run_record(job):
     """job = (id, ct, delim, cycles) -> record for TextCodecTrace"""
     rid, ct, delim, cycles = job
     fields = [{"name": f["name"], "k": f["k"], "w": f["w"], "sh": f["sh"]} for f in ct["fields"]]
     written = project_rows(build_array(ct, delim, "lt"), ct["fields"], delim)
     obs = [cycle(ct, written, delim, e, o) for e, o in cycles]
-    return {"id": rid, "dc": DCLASS[delim], "delim": delim, "t": {"fields": fields, "rows": written}, "obs": obs}
+    return {"id": rid, "dcode": ord(delim), "delim": delim, "t": {"fields": fields, "rows": written}, "obs": obs}
 
 
 # ---------------------------------------------------------------------------------
@@ -404,6 +461,11 @@ def instantiate(t, rng):
                             x = abs((lattice_f8 if f["w"] == 8 else lattice_f4)(rng))
                             if not 1e-4 <= x < 1:
                                 slots[key] = x if e == "fa" else -x
+                        c.append(ftoken(slots[key]))
+                    elif e in FSHAPES:
+                        key = (e, f["w"])
+                        if key not in slots:
+                            slots[key] = shape_value(e, f["w"], rng)
                         c.append(ftoken(slots[key]))
                     else:
                         c.append(e)
@@ -452,6 +514,8 @@ def random_float(rng, w, ft):
     u = rng.random()
     if u < 0.25:
         return rng.choice(["nan", "pinf", "ninf", "pz", "nz"])
+    if u < 0.40:
+        return ftoken(shape_value(rng.choice(FSHAPES), w, rng))
     if ft == "gen":
         return ftoken((generic_f8 if w == 8 else generic_f4)(rng))
     return ftoken((lattice_f8 if w == 8 else lattice_f4)(rng))
@@ -490,11 +554,12 @@ def kinds_of(t):
     return "".join(sorted({f["k"] for f in t["fields"]}))
 
 
-def signatures(rec, k, clauses, hz):
+def signatures(rec, k, clauses, hz, dl):
     """one defect family -> one signature: the failing clause and the structural class of the
-    input (delimiter class + first named hazard, or the byte-order class), never raw values"""
+    input (delimiter class [+ syntactic group] as TLC names it, first named hazard, or the byte-order
+    class), never raw values"""
     o = rec["obs"][k]
-    dc = rec["dc"]
+    dc = dl.split("/")[0]
     out = []
     rows = [c for c in clauses if c in ROWS_CLAUSES]
     if rows:
@@ -505,10 +570,10 @@ def signatures(rec, k, clauses, hz):
         else:
             for c in rows:
                 stage = ("@" + o["stage"]) if c == "rows_error" else ""
-                out.append(("%s|%s%s|delim=%s|nohazard|kinds=%s|order=%s" % (o["entry"], c, stage, dc, kinds_of(rec["t"]), o["order"]), c))
+                out.append(("%s|%s%s|delim=%s|nohazard|kinds=%s|order=%s" % (o["entry"], c, stage, dl, kinds_of(rec["t"]), o["order"]), c))
     for c in clauses:
         if c not in ROWS_CLAUSES:
-            out.append(("%s|%s|order=%s" % (o["entry"], c, o["order"]), c))
+            out.append(("%s|%s|order=%s%s" % (o["entry"], c, o["order"], "|delim=" + dl if c == "hdr_delim" else ""), c))
     return out
 
 
@@ -526,7 +591,7 @@ class Tally:
 
 def judge(ctx, recs, what, tally, meta=None):
     """recs: records of run_record.  TLC (TextCodecTrace) names the failing clauses."""
-    slim = [{"id": r["id"], "dc": r["dc"], "t": r["t"],
+    slim = [{"id": r["id"], "dcode": r["dcode"], "t": r["t"],
              "obs": [{k: v for k, v in o.items() if k != "stage"} for o in r["obs"]]} for r in recs]
     rejects = {}
     chunk = 30000
@@ -539,23 +604,24 @@ def judge(ctx, recs, what, tally, meta=None):
         failing = rejects[rid]
         r = byid[rid]
         hz = next((c[3:] for c in failing if c.startswith("hz:")), "none")
+        dl = next((c[3:] for c in failing if c.startswith("dl:")), "unknown")
         per = {}
         for c in failing:
-            if not c.startswith("hz:"):
+            if not c.startswith(("hz:", "dl:")):
                 k, name = c.split(":", 1)
                 per.setdefault(int(k) - 1, []).append(name)
         for k in sorted(per):
             o = r["obs"][k]
             if any(c in ROWS_CLAUSES for c in per[k]):
                 tally.rows_failed.add((rid, k))
-            for sig, clause in signatures(r, k, sorted(per[k]), hz):
+            for sig, clause in signatures(r, k, sorted(per[k]), hz, dl):
                 case = {"kind": "cycle", "ct": (meta or {}).get(rid, {}).get("ct"), "delim": r["delim"], "entry": o["entry"],
                         "order": o["order"], "written": r["t"]["rows"], "observed": {"err": o["err"], "rows": o["rows"], "fields": o["fields"], "hdr": o["hdr"]},
-                        "failing": sorted(per[k]), "hazard": hz}
+                        "failing": sorted(per[k]), "hazard": hz, "delim_class": dl}
                 if case["ct"] is None:
                     case["ct"] = {"fields": r["t"]["fields"], "rows": r["t"]["rows"]}
                 tally.add(ctx, sig, "%s with delim %s (%s, order %s): clause '%s' of C04 violated [%s]" %
-                          ("sfile.write/read" if o["entry"] == "sfile" else "Recfile.write/read", DNAME[r["delim"]], r["dc"], o["order"],
+                          ("sfile.write/read" if o["entry"] == "sfile" else "Recfile.write/read", dname(r["delim"]), dl, o["order"],
                            clause, ",".join(sorted(per[k]))), case)
     return rejects
 
@@ -564,84 +630,176 @@ def judge(ctx, recs, what, tally, meta=None):
 ACTIONS = ["ChooseLayout", "ChooseRows", "Write", "ReadStrField", "ScanNumField", "Finish"]
 
 
+def load_catalog(recs):
+    """the delimiter catalogue as TLC printed it (DELIM records of the export run)"""
+    CATALOG.clear()
+    for d in recs:
+        CATALOG[chr(d["code"])] = {"cls": d["cls"], "grp": d["grp"], "quant": bool(d["quant"])}
+    quant = sorted(c for c in CATALOG if CATALOG[c]["quant"])
+    if len(quant) < 60 or any(c not in quant for c in LISTED) or "%" not in quant or "e" in quant:
+        raise MachineryError("delimiter catalogue not exported as expected: %d quantified delimiters" % len(quant))
+    return quant
+
+
+def has_dl_string(ct):
+    return any(f["k"] == "S" and any("dl" in e for e in cell) for row in ct["rows"] for f, cell in zip(ct["fields"], row))
+
+
 def run(ctx):
     tier = ctx.tier
     fams = set(FAMILIES[tier])
     tally = Tally()
-    base = dict(Fams=fams, DClasses={"plain", "tab", "space"}, Reader="pinned", DoExport=False)
+    base = dict(Fams=fams, DClasses={"plain", "tab", "space"}, Reader="pinned", Writer="arg", DelimRun="classes", DoExport=False)
+    fixed = dict(base, Reader="fixed", DelimRun="plan")
     # 1. design level, every table of every family x every delimiter class:
     #    the pinned scanner meets the round-trip obligation off the named hazards ...
     ctx.tlc("TextCodecMC.tla", what="pinned scanner refines the round trip except on the named hazards",
             cfg_text=cfg(constants=base, invariants=MECH_INVS), workers=16, require=ACTIONS, timeout=3000)
     maxw = int(os.environ.get("VH_MAX_WORKERS", "16"))
     with ThreadPoolExecutor(3) as ex:
-        #    ... the repaired scanner meets it everywhere ...
-        f2 = ex.submit(ctx.tlc, "TextCodecMC.tla", what="repaired scanner refines the round trip",
-                       cfg_text=cfg(constants=dict(base, Reader="fixed"), invariants=["MechRefines", "StepsAgree", "ScanSafe"]),
+        #    ... the repaired scanner meets it everywhere, for every delimiter of every table's plan, and the text
+        #    written does not depend on the delimiter character (the separator is an argument of printf) ...
+        f2 = ex.submit(ctx.tlc, "TextCodecMC.tla", what="repaired scanner refines the round trip for every planned delimiter",
+                       cfg_text=cfg(constants=fixed, invariants=["MechRefines", "StepsAgree", "ScanSafe"] + DELIM_INVS),
                        workers=max(1, maxw - 2), coverage=False, timeout=3000)
-        #    ... and (non-vacuity) the pinned scanner violates the plain obligation
+        #    export (spec -> code): tables, their delimiters, the delimiter catalogue
+        f3 = ex.submit(ctx.tlc, "TextCodecMC.tla", what="export tables and delimiters",
+                       cfg_text=cfg(constants=dict(base, DoExport=True), next_="NextExport", constraints=["Export"]),
+                       workers=1, coverage=False, timeout=3000)
+        #    ... (non-vacuity) the pinned scanner violates the plain obligation ...
         fs = ex.submit(ctx.tlc, "TextCodecMC.tla", what="self-test: pinned scanner violates MechRefines",
                        cfg_text=cfg(constants=dict(base, Fams={FAMILIES[tier][0]}), invariants=["MechRefines"]),
                        workers=1, allow_violation=True, coverage=False)
-        #    export (spec -> code)
-        f3 = ex.submit(ctx.tlc, "TextCodecMC.tla", what="export tables",
-                       cfg_text=cfg(constants=dict(base, DoExport=True), next_="NextExport", constraints=["Export"]),
-                       workers=1, coverage=False, timeout=3000)
-        r2, rs, r3 = f2.result(), fs.result(), f3.result()
+        #    ... and the delimiter dimension bites: a writer with the separator inside the print format loses the
+        #    round trip for the percent sign, and only for it
+        fmt = dict(fixed, Writer="fmt", Fams=set(DELIM_FAMILIES["quick"]))
+        fc = ex.submit(ctx.tlc, "TextCodecMC.tla", what="self-test: format-writer breaks exactly the percent sign",
+                       cfg_text=cfg(constants=fmt, invariants=["FmtWriterCharacterised"]), workers=2, coverage=False)
+        fv = ex.submit(ctx.tlc, "TextCodecMC.tla", what="self-test: format-writer violates MechRefines",
+                       cfg_text=cfg(constants=fmt, invariants=["MechRefines"]), workers=1, allow_violation=True, coverage=False)
+        r2, rs, r3, rc, rv = f2.result(), fs.result(), f3.result(), fc.result(), fv.result()
     if "MechRefines" not in rs.violated:
         raise MachineryError("self-test failed: MechRefines not violated by the pinned scanner model")
+    if "MechRefines" not in rv.violated or rc.distinct < 1000:
+        raise MachineryError("self-test failed: the format-writer model does not violate MechRefines (%s, %d states)" % (rv.violated, rc.distinct))
     if r2.distinct < 1000:
         raise MachineryError("repaired-scanner run explored only %d states" % r2.distinct)
     cases = r3.records.get("CASE", [])
     famdefs = {f["name"]: f["def"] for f in r3.records.get("FAMILY", [])}
     if not cases or r3.garbled or set(famdefs) != fams:
         raise MachineryError("export: %d tables, %d unparsed lines, families %s" % (len(cases), r3.garbled, sorted(famdefs)))
-    # 2. replay every exported table: every delimiter x (entry point, byte order) plan, in batches
+    quant = load_catalog(r3.records.get("DELIM", []))
+    # 2. replay every exported table with every delimiter TLC gave it x (entry point, byte order) plan, in batches
     rng = random.Random(ctx.seed * 7919 + 17)
     jobs, preds = [], []
     fam_count = {f: 0 for f in FAMILIES[tier]}
+    cover = {d: {"tables": 0, "led_number": 0, "delim_in_string": 0} for d in quant}
+    amb_tables = []
     for ntab, c in enumerate(cases, 1):
         fam_count[c["fam"]] += 1
         ct = instantiate(c["t"], rng)
-        for di, delim in enumerate(delims_for(ntab, tier)):
+        dls = has_dl_string(ct)
+        if c["fam"] in DELIM_FAMILIES[tier] and c["led"] and len(amb_tables) < 12 and ntab % 3 == 0:
+            amb_tables.append(ct)
+        for di, code in enumerate(sorted(c["delims"])):
+            delim = chr(code)
+            if delim not in cover:
+                raise MachineryError("TLC planned a delimiter outside the quantifier: %d" % code)
             jobs.append((len(jobs) + 1, ct, delim, plan(ntab + di, ct, tier)))
-            preds.append(c[DCLASS[delim]]["rt"])
+            preds.append(c[CATALOG[delim]["cls"]]["rt"])
+            cv = cover[delim]
+            cv["tables"] += 1
+            cv["led_number"] += bool(c["led"])
+            cv["delim_in_string"] += dls
     if min(fam_count.values()) == 0:
         raise MachineryError("a family exported no table: %s" % fam_count)
+    # vacuity guard of the covering design: every quantified delimiter meets numbers written after a separator
+    # and strings that contain it, on a fair share of the tables
+    thin = {dname(d): cv for d, cv in cover.items() if cv["tables"] < 100 or cv["led_number"] < 40 or cv["delim_in_string"] < 20}
+    if thin:
+        raise MachineryError("the delimiter plan leaves delimiters thinly covered: %s" % thin)
     del cases
-    ctx.log("replaying %d tables, %d (table, delimiter) records" % (ntab, len(jobs)))
+    ctx.log("replaying %d tables, %d (table, delimiter) records over %d delimiters" % (ntab, len(jobs), len(quant)))
     binding, stats = {}, {"records": 0, "cycles": 0}
     probe = replay_and_judge(ctx, jobs, preds, tally, "judge replayed tables (TextCodecTrace)", binding, stats, nsample=5)
     nrep = stats["records"]
-    # 3. larger seeded tables (code -> spec)
+    # 3. larger seeded tables (code -> spec): the listed delimiters and others of the catalogue
     nrand = RANDOM_TABLES[tier]
     rrng = random.Random(ctx.seed * 104729 + 5)
+    others = [d for d in quant if d not in LISTED]
     rjobs = []
     for n in range(nrand):
         ct = random_table(rrng)
-        for delim in (DELIMS if tier == "thorough" else [DELIMS[n % 6], DELIMS[(n + 2 + n // 6 % 3) % 6]]):
+        ds = list(LISTED) if tier == "thorough" else [LISTED[n % 6], LISTED[(n + 2 + n // 6 % 3) % 6]]
+        ds += rrng.sample(others, 2 if tier == "thorough" else 1)
+        for delim in ds:
             rjobs.append((len(jobs) + len(rjobs) + 1, ct, delim, plan(n, ct, tier)))
     replay_and_judge(ctx, rjobs, None, tally, "judge seeded larger tables (TextCodecTrace)", None, stats, nsample=1)
-    # 4. binding self-test: corrupted observations must be rejected, each with its own clause
+    # 4. the inherently ambiguous delimiters: observed for the record, nothing is demanded (TLC accepts whatever came back)
+    ambiguous = observe_ambiguous(ctx, amb_tables, len(jobs) + len(rjobs))
+    # 5. binding self-test: corrupted observations must be rejected, each with its own clause
     selftest(ctx, probe)
     ctx.rule = ("every table of the bounded families %s of TextCodecMC.tla (layouts x rows x cell alphabets, exported by TLC), each "
-                "written and read back with %s of %s through sfile and recfile in little-, big- and mixed-endian memory "
+                "written and read back with the delimiters TLC assigned to it out of the %d single-character delimiters of the "
+                "quantifier (TCQuantDelims of TextCodec.tla: tab, VT, FF, space and every printable ASCII character that neither occurs "
+                "in nor continues the text of a number) - %s - through sfile and recfile in little-, big- and mixed-endian memory "
                 "order; plus %d seeded tables (<= 6 fields of every type, sub-arrays, <= 8 rows, printable ASCII strings, lattice and "
-                "generic floats); a case is one (table as written, delimiter) pair, distinct by its abstract record, always non-trivial" %
-                (sorted(fam_count), "every delimiter" if tier == "thorough" else "tab, space and two (rotating) plain delimiters",
-                 [DNAME[d] for d in DELIMS], nrand))
+                "generic floats) with %s; a case is one (table as written, delimiter) pair, distinct by its abstract record, always non-trivial" %
+                (sorted(fam_count), len(quant),
+                 "every delimiter for the families %s, the six listed ones and one more (spread by a hash of the table) for the others" % DELIM_FAMILIES[tier]
+                 if tier == "thorough" else
+                 "every delimiter for q_dtype, eight per table for q_delim, tab, space and two more for the others, spread by a hash of the table "
+                 "so that every delimiter meets >= 100 tables",
+                 nrand, "the six listed delimiters and two others" if tier == "thorough" else "two of the six listed delimiters and one other"))
     ctx.exhaustive = True
     ctx.note(families=famdefs,
              exported_tables=fam_count, replayed_records=nrep, seeded_records=stats["records"] - nrep, cycles=stats["cycles"],
+             delimiters={"quantified": [dname(d) for d in quant],
+                         "outside_the_quantifier": [dname(d) for d in sorted(CATALOG) if not CATALOG[d]["quant"]],
+                         "coverage_min": {k: min(cv[k] for cv in cover.values()) for k in ("tables", "led_number", "delim_in_string")},
+                         "ambiguous_observed_round_trips": ambiguous},
              mechanism_binding=binding, violations_by_signature=dict(sorted(tally.by_sig.items())),
              undecided=["16th (f8) / 7th (f4) significant digit of floats that need it: decided only to relative 1e-15 / 1e-6 (fields of tier 'gen'); "
-                        "equality is demanded on the short-decimal lattice (<= 15 / <= 6 digits), for non-finite values and signed zeros"])
+                        "equality is demanded on the short-decimal lattice (<= 15 / <= 6 digits, and the 16 / 7 digit values of the text shapes "
+                        "fl fz fi, each verified to survive a correctly rounded print/scan cycle), for non-finite values and signed zeros",
+                        "finite values within a relative 5e-16 of the overflow threshold (DBL_MAX prints as 1.797693134862316e+308, which reads "
+                        "back as inf): not demanded, the largest value tested is the lattice value 1.79769313486231e+308",
+                        "delimiters that occur in or continue the text of a number (digits + - . e E n a i f x X I): inherently ambiguous, "
+                        "outside the quantifier; line feed, carriage return and NUL are not delimiters"])
     ctx.assumptions = [
         "short-decimal lattice: a decimal with <= 15 (f8) / <= 6 (f4) significant digits survives %.16g / %.7g and a correctly rounding strtod unchanged (membership is checked per value)",
-        "strings are printable ASCII, space, tab and embedded NUL bytes (no newline, carriage return, vertical tab or form feed)",
+        "strings are printable ASCII, space, tab and embedded NUL bytes, and the delimiter character (no newline or carriage return)",
         "mixed-endian tables are inside the quantifier (fields x {'<','>'}); they are reported under their own signature",
+        "'(' is a delimiter inside the quantifier: the scanf of this platform reads \"nan\" without an ISO C n-char-sequence",
     ]
     ctx.trusted_base.append("glibc printf/strtod being correctly rounded (lattice membership)")
+
+
+def observe_ambiguous(ctx, tables, first_id):
+    """write/read a few tables with each delimiter outside the quantifier; recorded as a note, judged by TLC as
+    'nothing demanded' (a reject here is a machinery failure: the trace module must not judge them)"""
+    amb = sorted(d for d in CATALOG if not CATALOG[d]["quant"])
+    if not tables or not amb:
+        raise MachineryError("no table / no delimiter for the ambiguous-delimiter observation")
+    jobs = []
+    for d in amb:
+        for n, ct in enumerate(tables[:4]):
+            jobs.append((first_id + len(jobs) + 1, ct, d, [("sfile", "lt"), ("recfile", "gt")][n % 2:n % 2 + 1]))
+    recs = pmap(run_record, jobs)
+    saved = ctx.traces
+    rej = tracecheck.validate(ctx, "TextCodecTrace.tla",
+                              [{"id": r["id"], "dcode": r["dcode"], "t": r["t"], "obs": [{k: v for k, v in o.items() if k != "stage"} for o in r["obs"]]}
+                               for r in recs], what="delimiters outside the quantifier: nothing demanded")
+    ctx.traces = saved
+    if rej:
+        raise MachineryError("the trace module judged delimiters outside the quantifier: %s" % sorted(rej)[:5])
+    out = {}
+    for r in recs:
+        o = r["obs"][0]
+        st = out.setdefault(dname(r["delim"]), [0, 0])
+        st[1] += 1
+        st[0] += (o["err"] == "none" and o["rows"] == r["t"]["rows"])
+    return {k: "%d/%d" % tuple(v) for k, v in out.items()}
 
 
 def is_probe(r):
@@ -677,7 +835,8 @@ def replay_and_judge(ctx, jobs, preds, tally, what, binding, stats, nsample=0, b
                 for k, o in enumerate(r["obs"]):
                     if o["order"] == "mixed":
                         continue
-                    bd = binding.setdefault(DNAME[r["delim"]], {"cycles": 0, "model_fail": 0, "real_fail": 0, "disagree": 0})
+                    bd = binding.setdefault(dname(r["delim"]) if r["delim"] in LISTED else "other:" + CATALOG[r["delim"]]["grp"],
+                                            {"cycles": 0, "model_fail": 0, "real_fail": 0, "disagree": 0})
                     real_fail = (r["id"], k) in tally.rows_failed
                     bd["cycles"] += 1
                     bd["model_fail"] += pred_fail
@@ -692,7 +851,7 @@ def selftest(ctx, probe):
     if probe is None:
         raise MachineryError("binding self-test: no clean probe record")
     import copy
-    good = {"id": 1, "dc": probe["dc"], "t": probe["t"], "obs": [{k: v for k, v in probe["obs"][0].items() if k != "stage"}]}
+    good = {"id": 1, "dcode": probe["dcode"], "t": probe["t"], "obs": [{k: v for k, v in probe["obs"][0].items() if k != "stage"}]}
     si = next(i for i, f in enumerate(probe["t"]["fields"]) if f["k"] == "S")
     ni = next(i for i, f in enumerate(probe["t"]["fields"]) if f["k"] != "S")
 
